@@ -18,7 +18,7 @@ ASSUMPTIONS = ["method names are pairwise distinct (the corpus avoids identifier
 
 IDS = ["Red", "GreenApple", "HTTPServer", "Utf8String", "X", "Abc_def", "A1b2", "XMLHttpRequest2", "Id", "IOError", "Blue2Go", "V10",
        "Http2_Proxy", "Z9", "QRCode", "Wi5Fi77", "r#type", "r#Match", "r#loop_Forever2",
-       # non-ASCII identifiers: the method names come from the Rust reference on heck (genprobe `snakifyu`), not from the ASCII model
+       # non-ASCII identifiers: the method names come from Model/HeckU.v (usnakify) on the probe's character table
        "Öl2", "Über9Mensch", "Café3", "ÉlanVital", "straßeName7x",
        # leading / trailing / doubled underscores around all-lower-case words (heck drops and collapses them)
        "Type_", "_reserved", "Two__words", "__x", "abc_"]
@@ -78,20 +78,13 @@ def build_corpus(tier, rng):
         for _, it_ in items:
             it_.variants = [v for v in it_.variants if v.ident.isascii()]
     names = G.model_query(ID, [it for _, it in items], [("is", ["names"]), ("tryas", ["names"]), ("is", ["allnames"])])
-    # identifiers outside the model's domain: their snake names are taken from the Rust reference
+    # non-ASCII identifiers: their snake names come from the Unicode-parametric model
     uni = sorted({v.ident for _, it in items for v in it.variants if not v.ident.isascii()})
     ref_snake = {}
     if uni:
-        from vlib import run as R_
-        import os as os_
-        binp, err = (None, "probe disabled") if G.NO_PROBE else R_.build_genprobe()
-        if binp is None and not G.NO_PROBE:
-            raise G.ProbeUnavailable("genprobe (the generator sources of /repo compiled as a library) does not build: " + str(err)[-1500:])
-    if uni:
-        obs, _ = R_.run_genprobe(binp, ["snakifyu %d %s" % (n, G.hx(u)) for n, u in enumerate(uni)], os_.path.join(R_.WORK, ID, "names"))
-        for n, u in enumerate(uni):
-            parts = dict(p.split("=", 1) for p in obs.get(n, "").split("|") if "=" in p)
-            ref_snake[u] = bytes.fromhex(parts["ref"][1:]).decode("utf-8")
+        # Model/HeckU.v on the probe's character table (the Rust reference only for identifiers with U+03A3)
+        for u, nm in zip(uni, G.unicode_names(ID, [("snakifyu", None, u) for u in uni])):
+            ref_snake[u] = nm
 
     def fix(namelist, it, only):
         """replace the model's (ASCII) snake name of the selected variants by the reference one"""
